@@ -1,13 +1,32 @@
 """C19 — FastEnforcer decides exactly like Enforcer.
-SPEC on the implementation: the same management history is run on a FastEnforcer (every admissible 2-field
-cache-key order) and on a plain Enforcer; every decision, every management result and the sorted policy
-must be equal after every call.  The plain side is additionally compared with the Mgmt model."""
+Proof: Props/C19.v (Fast.v / FastProofs.v: the two-level index refines the abstract duplicate-free rule set,
+bucket_exact, never_hides / never_resurrects over arbitrary histories, decide_equal with the explicit
+empty_rule_quirk guard).
+Correspondence / search for a failing input, four strata:
+  A  container   the REAL FastPolicy (obtained from a real FastModel) driven by op sequences
+                 (append/remove/contains/iter/len/index/item assignment/apply_filter/clear_filter/
+                 fast_policy_filter around a raising body/FastModel.clear_policy), every cache-key order over
+                 positions 0..3, rules of length 0..4 with repeated and empty fields  vs  the extracted model
+                 (oracle_C19 tag 1); the SET SPEC (the statements of the refinement theorems) is evaluated on the
+                 implementation's own observations;
+  B  enforcer    a REAL FastEnforcer (ACL kinds, no adapter) driven by management calls + decisions
+                 vs  the extracted model of policy.py-on-the-container + FastEnforcer.enforce (tag 2);
+  C  differential (the SPEC of the property on the implementation) the same management history on a real
+                 FastEnforcer (every admissible 2-field cache-key order) and on a real Enforcer: every decision,
+                 every management result and the sorted policy equal after every call; the plain side is also
+                 compared with the Mgmt model;
+  D  decide_equal evaluated by the model (tag 3) on random policies/requests: fast = plain unless empty_rule_quirk.
+"""
 import itertools
+import json
+import sys
 
 import casbin
 from casbin.model.model_fast import FastModel
+from casbin.model.policy_fast import FastPolicy, fast_policy_filter
 
-from ..core import Check
+from .. import core
+from ..core import Check, classify_exception
 from .. import mgmt
 
 PROP = "C19"
@@ -17,8 +36,12 @@ W = dict(p_add=8, p_add_many=5, p_remove=5, p_remove_many=3, p_remove_filtered=3
 KNOWN_EMPTY_KEY = "C19/empty-key-request"
 # ops whose result is (or contains) the p rule list in storage order: compared as sorted lists
 P_ORDERED = {52, 53, 61, 65, 66, 67, 69, 70, 62, 63, 64}
+A = mgmt.ATOMS.a
+S = mgmt.S
+ORACLE = None          # oracle_C19 (container / enforcer model); chk.oracle is the Mgmt model
 
 
+# ============================================================================ C: Fast vs plain differential
 def canon(op, obs):
     res = obs[0]
     if op[0] in P_ORDERED and res[0] == 0 and isinstance(res[1], list):
@@ -61,13 +84,12 @@ def make_spec(order):
 
 
 def known_probe(chk):
-    A = mgmt.ATOMS.a
     kind = mgmt.KINDS["acl"]
     ops = [(1, 0, [A("alice"), A("data1"), A("read")]), (50, [0, 0, 0])]
     mgmt.run_cases(chk, kind, [([], True, ops, make_spec([2, 1]))], None, label="known-finding-probe")
 
 
-def run(chk, n):
+def run_differential(chk, n):
     rng = chk.rng
     known_probe(chk)
     for kn in ("acl", "acl_deny", "rbac", "rbac_deny"):
@@ -81,37 +103,557 @@ def run(chk, n):
             ops = [o for o in g.history(rng.randint(3, 16)) if not (o[0] in (50, 51) and all(v == 0 for v in o[1]))]
             cases.append((rows, True, ops, make_spec(order)))
         mgmt.run_cases(chk, kind, cases, None, label=f"random-{kn}")
-        chk.extra.setdefault("strata", {})[f"random_{kn}"] = dict(histories=len(cases), key_orders=orders)
+        chk.extra.setdefault("strata", {})[f"differential_{kn}"] = dict(histories=len(cases), key_orders=orders)
 
 
+# ============================================================================ A: the container
+MODEL_TEXT = mgmt.KINDS["acl"].model_text()
+C_ATOMS = [0, A("alice"), A("bob"), A("data1"), A("read")]
+C_ORDERS = [(a, b) for a in range(4) for b in range(4)]          # includes repeated positions (k, k)
+
+
+class Holder:
+    """a real FastModel; .fp is the FastPolicy it installed for p (add_def) / re-installs (clear_policy)"""
+
+    def __init__(self, order):
+        self.order = list(order)
+        self.m = FastModel(self.order)
+        self.m.load_model_from_text(MODEL_TEXT)
+
+    @property
+    def fp(self):
+        return self.m.model["p"]["p"].policy
+
+
+def c_exec(h, op):
+    fp = h.fp
+    c = op[0]
+    if c == 1:
+        fp.append(S(op[1]))
+        return [0, []]
+    if c == 2:
+        return [0, 1 if fp.remove(S(op[1])) else 0]
+    if c == 3:
+        return [0, 1 if (S(op[1]) in fp) else 0]
+    if c == 4:
+        return [0, sorted(mgmt.ATOMS.rules(list(fp)))]
+    if c == 5:
+        return [0, len(fp)]
+    if c == 6:
+        return [0, mgmt.ATOMS.rule(fp[fp.index(S(op[1]))])]
+    if c == 7:
+        i = fp.index(S(op[1]))
+        fp[i] = S(op[2])
+        return [0, []]
+    if c == 8:
+        return [0, mgmt.ATOMS.rule(fp[len(fp) + op[1]])]
+    if c == 9:
+        fp[len(fp) + op[1]] = S(op[2])
+        return [0, []]
+    if c == 10:
+        fp.apply_filter(mgmt.ATOMS.s(op[1]), mgmt.ATOMS.s(op[2]))
+        return [0, []]
+    if c == 11:
+        fp.clear_filter()
+        return [0, []]
+    if c == 12:
+        with fast_policy_filter(fp, mgmt.ATOMS.s(op[1]), mgmt.ATOMS.s(op[2])):
+            return c_exec(h, op[3])
+    if c == 13:
+        h.m.clear_policy()
+        return [0, []]
+    raise ValueError(op)
+
+
+def run_container_impl(order, ops):
+    h = Holder(order)
+    obs = []
+    for op in ops:
+        try:
+            res = c_exec(h, op)
+        except Exception as exc:  # noqa
+            res = [999, classify_exception(exc)]
+        fp = h.fp
+        if not isinstance(fp, FastPolicy) or list(fp._cache_key_order) != list(order):
+            obs.append([res, ["NOT-A-FASTPOLICY", type(fp).__name__], 0])
+            break
+        obs.append([res, sorted(mgmt.ATOMS.rules(list(fp))), len(fp)])
+    return obs
+
+
+def canon_cmodel(ops, rep):
+    out = []
+    for op, o in zip(ops, rep):
+        res, view, n = o
+        c = op[0] if op[0] != 12 else op[3][0]
+        if c == 4 and res[0] == 0:
+            res = [0, sorted(res[1])]
+        out.append([res, sorted(view), n])
+    return out
+
+
+def query_container(order, histories):
+    reqs = [(1, [order[0], order[1], [list(o) for o in ops]]) for ops in histories]
+    reps = ORACLE.query(reqs)
+    out = []
+    for ops, rep in zip(histories, reps):
+        if not isinstance(rep, list) or rep == [998] or (rep and rep[0] == "ORACLE-ERROR"):
+            out.append(None)
+        else:
+            out.append(canon_cmodel(ops, rep))
+    return reqs, reps, out
+
+
+def keyof(order, r):
+    return (r[order[0]], r[order[1]]) if max(order) < len(r) else None
+
+
+def container_spec(order, ops, obs):
+    """the refinement theorems evaluated on the implementation's observations: the container is a SET of rules;
+    the iteration is that set (no filter) or exactly its members whose key fields equal the filter (bucket_exact);
+    len = size of the iteration; `in` = membership; append adds, remove deletes, nothing else changes; clear_policy
+    empties.  While a filter is active a mutation changes the set only (what the iteration shows then is left to the
+    model comparison)."""
+    Aset = set()
+    flt = None            # None | (a, b)
+    dirty = False         # a mutation happened under the current filter
+    for i, (op, o) in enumerate(zip(ops, obs)):
+        res, view, n = o
+        inner = op
+        scoped = op[0] == 12
+        if scoped:                      # apply_filter ... body ... finally clear_filter
+            flt, dirty, inner = (op[1], op[2]), False, op[3]
+        c = inner[0]
+        ok = res[0] == 0
+        eff_flt = flt
+        if c == 1:
+            r = tuple(inner[1])
+            if keyof(order, r) is None:
+                if ok:
+                    return i, "append of a rule too short for the key positions succeeded"
+            else:
+                if not ok:
+                    return i, "append of a well-formed rule raised"
+                Aset.add(r)
+                dirty = dirty or flt is not None
+        elif c == 2:
+            r = tuple(inner[1])
+            if keyof(order, r) is not None:
+                if r in Aset:
+                    if res != [0, 1]:
+                        return i, "remove of a stored rule did not answer True"
+                    Aset.discard(r)
+                    dirty = dirty or flt is not None
+                elif ok and res != [0, 1]:
+                    return i, "remove answered something else than True"
+        elif c == 3:
+            r = tuple(inner[1])
+            exp = 1 if (keyof(order, r) is not None and r in Aset) else 0
+            if res != [0, exp]:
+                return i, "`rule in policy` differs from membership in the stored set"
+        elif c in (4, 5) and not dirty:
+            exp = sorted(list(r) for r in Aset if eff_flt is None or keyof(order, r) == eff_flt)
+            if c == 4 and res != [0, exp]:
+                return i, "iteration is not exactly the stored rules whose key fields equal the filter"
+            if c == 5 and res != [0, len(exp)]:
+                return i, "len differs from the number of rules the iteration yields"
+        elif c == 6 and not dirty:
+            r = tuple(inner[1])
+            vis = keyof(order, r) is not None and r in Aset and (eff_flt is None or keyof(order, r) == eff_flt)
+            if vis and res != [0, list(r)]:
+                return i, "self[self.index(rule)] is not the rule"
+            if not vis and ok:
+                return i, "index found a rule that is not in the current iteration"
+        elif c == 7:
+            old, new = tuple(inner[1]), tuple(inner[2])
+            vis = keyof(order, old) is not None and old in Aset and (eff_flt is None or keyof(order, old) == eff_flt)
+            if not dirty:
+                if not vis and ok:
+                    return i, "item assignment through index succeeded for a rule outside the iteration"
+                if vis:
+                    Aset.discard(old)
+                    if keyof(order, new) is not None:
+                        if not ok:
+                            return i, "item assignment of a well-formed rule raised"
+                        Aset.add(new)
+                    dirty = dirty or flt is not None
+            else:
+                return None      # state under a mutated filter: model comparison only
+        elif c in (8, 9):
+            if ok:
+                return i, "an index past the end did not raise"
+        elif c == 10:
+            flt, dirty = (inner[1], inner[2]), False
+        elif c == 11:
+            flt, dirty = None, False
+        elif c == 13:
+            Aset, flt, dirty = set(), None, False
+        if scoped:
+            flt, dirty = None, False
+        # the observation after every call
+        if not dirty:
+            exp = sorted(list(r) for r in Aset if flt is None or keyof(order, r) == flt)
+            if view != exp:
+                return i, ("after the call the iteration is not the stored set"
+                           + (" restricted to the filter" if flt is not None else "")
+                           + (" (a rule is hidden)" if len(view) < len(exp) else " (a rule is resurrected or foreign)"))
+            if n != len(exp):
+                return i, "after the call len differs from the number of stored rules"
+    return None
+
+
+def c_rule(rng, pool):
+    x = rng.random()
+    if pool and x < 0.55:
+        r = list(rng.choice(pool))
+        if rng.random() < 0.3 and r:
+            r[rng.randrange(len(r))] = rng.choice(C_ATOMS)
+    else:
+        n = rng.choice([0, 1, 2, 3, 3, 3, 3, 4])
+        r = [rng.choice(C_ATOMS) for _ in range(n)]
+    pool.append(r)
+    if len(pool) > 8:
+        pool.pop(0)
+    return r
+
+
+def c_op(rng, pool, order):
+    x = rng.random()
+    if x < 0.30:
+        return (1, c_rule(rng, pool))
+    if x < 0.42:
+        return (2, c_rule(rng, pool))
+    if x < 0.52:
+        return (3, c_rule(rng, pool))
+    if x < 0.57:
+        return (4,)
+    if x < 0.61:
+        return (5,)
+    if x < 0.67:
+        return (6, c_rule(rng, pool))
+    if x < 0.76:
+        return (7, c_rule(rng, pool), c_rule(rng, pool))
+    if x < 0.78:
+        return (8, rng.randint(0, 2))
+    if x < 0.80:
+        return (9, rng.randint(0, 2), c_rule(rng, pool))
+    if x < 0.86:
+        r = c_rule(rng, pool)
+        k = keyof(order, r) or (rng.choice(C_ATOMS), rng.choice(C_ATOMS))
+        if rng.random() < 0.2:
+            k = (rng.choice(C_ATOMS), rng.choice(C_ATOMS))
+        return (10, k[0], k[1])
+    if x < 0.90:
+        return (11,)
+    if x < 0.98:
+        r = c_rule(rng, pool)
+        k = keyof(order, r) or (rng.choice(C_ATOMS), rng.choice(C_ATOMS))
+        body = rng.choice([(4,), (5,), (8, 0), (6, c_rule(rng, pool)), (3, c_rule(rng, pool)), (9, 0, c_rule(rng, pool)),
+                           (1, c_rule(rng, pool)), (2, c_rule(rng, pool)), (7, c_rule(rng, pool), c_rule(rng, pool))])
+        return (12, k[0], k[1], body)
+    return (13,)
+
+
+def exhaustive_container(order, maxlen):
+    a, b, d, r = A("alice"), A("bob"), A("data1"), A("read")
+    r1, r2, r3 = [a, d, r], [b, d, r], [a, d, 0]
+    k1 = keyof(order, r1)
+    alpha = [(1, r1), (1, r2), (1, r3), (2, r1), (2, r2), (3, r1), (4,), (7, r1, r2), (7, r1, r3), (6, r1),
+             (10, k1[0], k1[1]), (11,), (12, k1[0], k1[1], (8, 0)), (12, k1[0], k1[1], (5,)), (13,), (1, [a])]
+    for n in range(1, maxlen + 1):
+        for seq in itertools.product(alpha, repeat=n):
+            yield list(seq)
+
+
+def container_fails(order, ops, want):
+    """does the (shrunk) candidate still fail the same way?  want = 'spec' | 'model'"""
+    obs = run_container_impl(order, ops)
+    if want == "spec":
+        return container_spec(order, ops, obs) is not None
+    _, _, mo = query_container(order, [ops])
+    return mo[0] is None or obs != mo[0]
+
+
+def check_container_batch(chk, order, histories, label, vm_pool):
+    obs_all = [run_container_impl(order, ops) for ops in histories]
+    reqs, reps, model = query_container(order, histories)
+    for ops, obs, mo, rq, rp in zip(histories, obs_all, model, reqs, reps):
+        nontrivial = any(o[0] in (1, 7) or (o[0] == 12 and o[3][0] in (1, 7)) for o in ops)
+        chk.count((tuple(order), repr(ops)) if nontrivial else None)
+        if len(vm_pool) < 4000:
+            vm_pool.append((rq, rp))
+        v = container_spec(order, ops, obs)
+        if v is not None:
+            step, msg = v
+            small = ops[:step + 1]
+            if len(chk.spec_failures) < 3:
+                small = mgmt.shrink(small, lambda cand: (container_spec(order, cand, run_container_impl(order, cand)) or (0, ""))[1] == msg)
+            so = run_container_impl(order, small)
+            chk.spec_fail(dict(level="container", stratum=label, cache_key_order=list(order), ops=[list(o) for o in small],
+                               readable=[pretty_cop(o) for o in small]),
+                          dict(observations=so[-2:]), "the abstract rule set of the refinement theorems", msg, None)
+            continue
+        if mo is None or obs != mo:
+            if len(chk.disagreements) < 3:
+                small = mgmt.shrink(list(ops), lambda cand: container_fails(order, cand, "model"))
+            else:
+                small = list(ops)
+            so = run_container_impl(order, small)
+            _, _, sm = query_container(order, [small])
+            chk.disagree(dict(level="container", stratum=label, cache_key_order=list(order), ops=[list(o) for o in small],
+                              readable=[pretty_cop(o) for o in small]), so, sm[0],
+                         where=f"{label}: real FastPolicy and model differ")
+    chk.traces += len(histories)
+
+
+def pretty_cop(op):
+    names = {1: "append", 2: "remove", 3: "contains", 4: "iter", 5: "len", 6: "self[self.index(r)]",
+             7: "self[self.index(old)] = new", 8: "self[len+d]", 9: "self[len+d] = r", 10: "apply_filter",
+             11: "clear_filter", 12: "with fast_policy_filter", 13: "FastModel.clear_policy"}
+
+    def p(x):
+        if isinstance(x, (list, tuple)):
+            return [p(y) for y in x]
+        try:
+            return mgmt.ATOMS.s(x)
+        except KeyError:
+            return x
+    c = op[0]
+    if c in (8,):
+        return [names[c], op[1]]
+    if c == 9:
+        return [names[c], op[1], p(op[2])]
+    if c == 12:
+        return [names[c], p(op[1]), p(op[2]), pretty_cop(op[3])]
+    return [names[c]] + [p(a) for a in op[1:]]
+
+
+def run_container(chk, n_random, exh_len, vm_pool):
+    rng = chk.rng
+    for order in ((0, 1), (2, 1)):
+        hs = list(exhaustive_container(order, exh_len))
+        check_container_batch(chk, order, hs, f"container-exhaustive-{order}", vm_pool)
+        chk.extra.setdefault("strata", {})[f"container_exhaustive_order{list(order)}_len<={exh_len}"] = len(hs)
+    per = max(1, n_random // len(C_ORDERS))
+    for order in C_ORDERS:
+        hs = []
+        for _ in range(per):
+            pool = []
+            hs.append([c_op(rng, pool, order) for _ in range(rng.randint(1, 14))])
+        check_container_batch(chk, order, hs, f"container-random-{order}", vm_pool)
+    chk.extra["strata"]["container_random"] = dict(sequences=per * len(C_ORDERS), key_orders=len(C_ORDERS))
+
+
+# ============================================================================ B: the enforcer on the container
+E_KINDS = ("acl", "acl_deny")
+
+
+def e_history(rng, kind, order):
+    g = mgmt.Gen(rng, kind, dict(W, rbac=0, load=0, save=0, clear=0, probe=0, query=0))
+    uni = g.uni
+    ops = []
+    for _ in range(rng.randint(2, 14)):
+        x = rng.random()
+        if x < 0.55:
+            o = g.op()[0]
+            if o[0] in (1, 2, 3, 4) and rng.random() < 0.06:       # a rule of the wrong length
+                o = (o[0], 0, o[2][:-1]) if o[0] in (1, 3) else (o[0], 0, [r[:-1] for r in o[2]])
+            ops.append(o)
+        elif x < 0.60:
+            ops.append((30,))
+        elif x < 0.65:
+            ops.append((38, rng.random() < 0.6))
+        elif x < 0.72:
+            ops.append((54, 0, g.rule(0)))
+        else:
+            req = list(rng.choice(uni.requests()))
+            y = rng.random()
+            if y < 0.06:
+                req = req[:-1]
+            elif y < 0.10:
+                req = req + [req[0]]
+            elif y < 0.16:
+                req[rng.randrange(len(req))] = 0
+            elif y < 0.19:
+                req = [0] * len(req)
+            ops.append((50, req))
+    return ops
+
+
+def mask_order_dependent(kind, ops, iobs, mobs):
+    """a stored rule of the wrong length makes a decision depend on the (unspecified) order in which the bucket is
+    iterated: 'invalid policy size' is raised only if that rule is reached before a deciding one.  Such decisions are
+    not compared."""
+    for j, op in enumerate(ops):
+        if op[0] == 50 and j < len(iobs) and j < len(mobs) and any(len(r) != kind.p_arity for r in iobs[j][1]):
+            iobs[j][0] = mobs[j][0] = ["order-dependent"]
+
+
+def run_enforcer(chk, n, vm_pool):
+    rng = chk.rng
+    for kn in E_KINDS:
+        kind = mgmt.KINDS[kn].with_(adapter=False)
+        for order in key_orders(kind) + [[0, 0]]:
+            hs = [e_history(rng, kind, order) for _ in range(n)]
+            reqs = [(2, [kind.wire(), order[0], order[1], [list(o) for o in ops]]) for ops in hs]
+            reps = ORACLE.query(reqs)
+            for ops, rq, rp in zip(hs, reqs, reps):
+                impl, obs = mgmt.run_impl(kind, [], True, ops, **fast_impl_kwargs(order))
+                iobs = [[o[0], o[3]] for o in obs]
+                if len(vm_pool) < 4000:
+                    vm_pool.append((rq, rp))
+                mobs = None
+                if isinstance(rp, list) and rp != [998] and not (rp and rp[0] == "ORACLE-ERROR"):
+                    mobs = [[o[0], sorted(o[1])] for o in rp]
+                    mask_order_dependent(kind, ops, iobs, mobs)
+                mut = [o for o in ops if o[0] < 50]
+                chk.count((kn, tuple(order), repr(mut)) if mut else None)
+                if mobs != iobs:
+                    i = next((j for j, (x, y) in enumerate(zip(iobs, mobs or [])) if x != y), 0)
+                    chk.disagree(dict(level="enforcer", kind=kn, kind_wire=kind.wire(), cache_key_order=list(order),
+                                      ops=[list(o) for o in ops[:i + 1]],
+                                      readable=[mgmt.pretty_op(o) for o in ops[:i + 1]]),
+                                 iobs[i] if i < len(iobs) else None, mobs[i] if mobs and i < len(mobs) else mobs,
+                                 where=f"enforcer-{kn}-{order}: real FastEnforcer and model differ at step {i}")
+            chk.traces += len(hs)
+        chk.extra.setdefault("strata", {})[f"enforcer_model_{kn}"] = dict(histories=n * (len(key_orders(kind)) + 1))
+
+
+# ============================================================================ D: decide_equal on the model
+def run_decide_equal(chk, n, vm_pool):
+    rng = chk.rng
+    reqs, metas = [], []
+    for _ in range(n):
+        kn = rng.choice(E_KINDS)
+        kind = mgmt.KINDS[kn]
+        uni = mgmt.Universe(kind)
+        order = rng.choice(key_orders(kind))
+        rules, seen = [], set()
+        for _ in range(rng.randint(0, 7)):
+            r = uni.p_rule(rng)
+            if tuple(r) not in seen:
+                seen.add(tuple(r))
+                rules.append(r)
+        req = list(rng.choice(uni.requests()))
+        if rng.random() < 0.15:
+            req[rng.randrange(3)] = 0
+        if rng.random() < 0.05:
+            req = [0, 0, 0]
+        reqs.append((3, [kind.wire(), order[0], order[1], rng.random() < 0.9, rules, req]))
+        metas.append((kn, order, rules, req))
+    reps = ORACLE.query(reqs)
+    for rq, rp, meta in zip(reqs, reps, metas):
+        chk.count(None)
+        if len(vm_pool) < 4000:
+            vm_pool.append((rq, rp))
+        if not (isinstance(rp, list) and len(rp) == 3):
+            chk.disagree(dict(level="decide_equal", request=rq[1]), None, rp, where="decide_equal: model rejected the request")
+        elif rp[0] != rp[1] and rp[2] != 1:
+            chk.disagree(dict(level="decide_equal", request=rq[1]), None, rp,
+                         where="decide_equal: the MODEL's fast and plain decisions differ outside empty_rule_quirk (theorem C19_decide_equal would be false)")
+    chk.extra.setdefault("strata", {})["decide_equal_model"] = n
+
+
+# ============================================================================ replay / main
 def replay(chk):
-    import json
     rec = json.load(open(chk.replay_file))
-    order = (rec.get("case") or {}).get("cache_key_order") or [2, 1]
+    c = rec.get("case") or {}
+    if c.get("level") == "container":
+        order = tuple(c["cache_key_order"])
+        ops = [tuple(o) for o in c["ops"]]
+        obs = run_container_impl(order, ops)
+        v = container_spec(order, ops, obs)
+        _, _, mo = query_container(order, [ops])
+        d = (mo[0] is None or obs != mo[0])
+        print("replay container ops:", [pretty_cop(o) for o in ops], "cache_key_order", list(order))
+        print("  spec violation on the implementation:", v)
+        print("  implementation vs model differ:", d)
+        if v is not None:
+            print(f"VIOLATION property={PROP} replay={chk.replay_file}")
+            sys.exit(1)
+        if d:
+            print(f"VIOLATION property={PROP} replay={chk.replay_file} no-failing-input-found")
+            sys.exit(1)
+        print("replay passes: the implementation satisfies the set spec on these calls and agrees with the model")
+        sys.exit(0)
+    if c.get("level") == "enforcer":
+        w = c["kind_wire"]
+        kind = mgmt.Kind(c["kind"], *[bool(x) for x in w[:5]], eff=w[5], adapter=bool(w[6]), watcher=w[7])
+        order = c["cache_key_order"]
+        ops = [tuple(o) for o in c["ops"]]
+        impl, obs = mgmt.run_impl(kind, [], True, ops, **fast_impl_kwargs(order))
+        rp = ORACLE.query([(2, [kind.wire(), order[0], order[1], [list(o) for o in ops]])])[0]
+        iobs = [[o[0], o[3]] for o in obs]
+        mobs = [[o[0], sorted(o[1])] for o in rp] if isinstance(rp, list) and rp != [998] else None
+        if mobs is not None:
+            mask_order_dependent(kind, ops, iobs, mobs)
+        print("replay enforcer ops:", [mgmt.pretty_op(o) for o in ops], "cache_key_order", order)
+        print("  implementation vs model differ:", iobs != mobs)
+        if iobs != mobs:
+            print(f"VIOLATION property={PROP} replay={chk.replay_file} no-failing-input-found")
+            sys.exit(1)
+        print("replay passes: the implementation agrees with the model")
+        sys.exit(0)
+    order = c.get("cache_key_order") or [2, 1]
     return mgmt.replay_case(chk, make_spec(order))
 
 
+def run(chk, n_diff, n_cont, exh_len, n_enf, n_dec, n_vm):
+    vm_pool = []
+    if ORACLE is not None:
+        run_container(chk, n_cont, exh_len, vm_pool)
+        run_enforcer(chk, n_enf, vm_pool)
+        run_decide_equal(chk, n_dec, vm_pool)
+    run_differential(chk, n_diff)
+    if ORACLE is not None and vm_pool and n_vm:
+        sample = [vm_pool[i] for i in sorted(chk.rng.sample(range(len(vm_pool)), min(n_vm, len(vm_pool))))]
+        ok, nchk, log = core.vm_crosscheck(PROP, "From PyCasbin Require Import Base Fast.", "oracle_C19",
+                                           [s[0] for s in sample], [s[1] for s in sample])
+        chk.vm_checked += nchk
+        if not ok:
+            chk.disagree(dict(level="vm_compute"), None, log[-600:],
+                         where="vm_compute re-evaluation of oracle_C19 differs from the extracted OCaml")
+
+
 def main():
+    global ORACLE
     chk = Check(PROP)
-    chk.rule = ("management histories (single/batch/filtered/update, RBAC wrappers, clear, reload) with decisions over the "
-                "request universe, run side by side on FastEnforcer and Enforcer for every admissible 2-field cache-key "
-                "order (6 on ACL models, 2 on RBAC models), allow- and deny-type effects; non-trivial = at least one "
-                "mutating call; distinct by (kind, mutating calls)")
-    chk.assumptions = ["admissible cache-key order = two distinct policy fields compared by equality with the request field "
+    chk.rule = ("A container: call sequences on the real FastPolicy of a real FastModel — exhaustive over a 16-call alphabet up "
+                "to length 2 (quick) / 3 (thorough) for the key orders [0,1] and [2,1], random sequences (1-14 calls, rules of "
+                "length 0-4 over 5 atoms incl. the empty string, repeated fields) for all 16 key orders over positions 0-3; "
+                "B enforcer: management calls + decisions on a real FastEnforcer (ACL, ACL with deny, 6 key orders + [0,0], "
+                "wrong-length rules and requests, disabled enforcement) against the model; C differential: management "
+                "histories (single/batch/filtered/update, RBAC wrappers, clear, reload) with decisions over the request "
+                "universe, side by side on FastEnforcer and Enforcer for every admissible 2-field cache-key order (6 on ACL "
+                "models, 2 on RBAC models), allow- and deny-type effects; D: decide_equal evaluated by the model. "
+                "non-trivial = at least one mutating call; distinct by (stratum, key order, calls)")
+    chk.assumptions = ["admissible cache-key order = two policy fields compared by equality with the request field "
                        "at the same position (FastPolicy hard-codes two index levels; other lengths are unsupported)",
-                       "priority effects are inadmissible for FastEnforcer (its buckets are unordered sets)",
+                       "priority effects are inadmissible for FastEnforcer (its buckets are unordered sets; "
+                       "C19_priority_order_refuted shows that even an insertion-ordered bucket would not keep the plain order)",
+                       "requests reach every cache-key position (FastEnforcer indexes the request before the arity / "
+                       "enabled checks: a shorter request raises IndexError even when enforcement is disabled — modelled, "
+                       "excluded from decide_equal by its hypothesis)",
                        "only the first p / g definition is loaded by FastModel (add_def returns None): models with g2/p2 "
-                       "are outside 'ACL and RBAC models'"]
-    chk.trusted = ["hand-written models coq/theories/{Policy,RoleGraph,Mgmt,Fast}.v tied by the differential history correspondence"]
+                       "and EnforceContext requests are outside 'ACL and RBAC models'",
+                       "the order in which a Python set is iterated is unspecified: iterations are compared as sets"]
+    chk.trusted = ["hand-written models coq/theories/{Policy,RoleGraph,Mgmt,Fast}.v tied by the differential correspondence "
+                   "(container / enforcer / history level)"]
     chk.build(oracle_name="Mgmt")
+    path, log = core.build_oracle(PROP)
+    if log:
+        chk.oracle_log = (chk.oracle_log + "\n" + log).strip()
+        chk.notes.append(log[:500])
+    if path:
+        ORACLE = core.Oracle(path)
     if chk.replay_file:
         return replay(chk)
     if chk.tier == "thorough":
-        run(chk, 1200)
+        run(chk, 1200, 16000, 3, 150, 20000, 1500)
     else:
-        run(chk, 120)
+        run(chk, 120, 1600, 2, 25, 3000, 200)
         if chk.broken() and not chk.spec_failures:
-            run(chk, 600)
+            run(chk, 600, 8000, 3, 80, 3000, 0)
     chk.finish()
 
 
